@@ -22,8 +22,10 @@ EXTENDS TraphImpl, TraphAbs, Queries, TraphCoop, Torn, TLC
 
 Traces == Batch.traces
 
-VARIABLES tid, k, cur, ram, def, bad, dead, gens
-vars == <<tid, k, cur, ram, def, bad, dead, gens>>
+VARIABLES tid, k, cur, ram, def, bad, dead, gens, issued
+vars == <<tid, k, cur, ram, def, bad, dead, gens, issued>>
+(* issued = the largest webentity id any creation report of this trace has shown since the
+   index was created or last cleared (what C12 calls "every id it issued") *)
 
 Tr == Traces[tid]
 Steps == Tr.steps
@@ -123,7 +125,7 @@ CreatedIds(c) == { c[j].id : j \in 1..Len(c) }
 
 (* clauses that read only the pre-state files, the request and the public   *)
 (* observations: evaluated even when the post-state files are broken        *)
-ObsClauses(st, rm, d, S, post, o0, o1) ==
+ObsClauses(st, rm, d, S, post, o0, o1, iss) ==
   LET A0   == AbsPre(o0, st)
       R    == AbsStep(A0, st, rm, d, S)
       P    == ImplStep(st, rm, d, S)
@@ -155,13 +157,15 @@ ObsClauses(st, rm, d, S, post, o0, o1) ==
       <<"C04.refuse",  (R.exc = "TraphException") = (S.exc = "TraphException")>>,
       <<"C04.function", Cardinality({ e[1] : e \in WSet(o1) }) = Cardinality(WSet(o1))>>,
       \* ---- C06 automatic creation ----
-      <<"C06.created", R.created = S.created>>,
+      <<"C06.created", Len(R.created) = Len(S.created)
+                       /\ { <<c.id, SeqToSet(c.prefixes)>> : c \in SeqToSet(R.created) }
+                          = { <<c.id, SeqToSet(c.prefixes)>> : c \in SeqToSet(S.created) }>>,
       <<"C06.exc",     R.exc = S.exc>>,
       \* ---- C12 ids ----
-      <<"C12.fresh",   \A j \in 1..Len(S.created) : S.created[j].id > st.lastId \/ S.reset>>,
-      <<"C12.increasing", \A i \in 1..Len(S.created) : \A j \in 1..Len(S.created) :
-                             i < j => S.created[i].id < S.created[j].id>>,
-      <<"C12.header",  post.lastId = R.A.lastId>>,
+      <<"C12.fresh",   \A j \in 1..Len(S.created) : S.created[j].id > (IF S.reset THEN 0 ELSE iss)>>,
+      <<"C12.distinct", \A i \in 1..Len(S.created) : \A j \in 1..Len(S.created) :
+                             i # j => S.created[i].id # S.created[j].id>>,
+      <<"bind.hdr.persist", post.lastId = R.A.lastId>>,
       <<"C12.shared",  \A j \in 1..Len(S.created) :
                           \A p \in SeqToSet(S.created[j].prefixes) : <<p, S.created[j].id>> \in WSet(o1)>>,
       \* ---- C19 storage accounting (lengths only) ----
@@ -252,15 +256,15 @@ CoopClauses(st, rm, d, gs, S, post, o0, o1) ==
                          /\ SeqSet(b.result) \subseteq UnionAll(b.moments)>>
     >>)
 
-StepClauses(st, rm, d, gs, S, post, o0) ==
+StepClauses(st, rm, d, gs, S, post, o0, iss) ==
   LET inv == TstInvFailure(post.trie, post.ls) IN
   IF IsCoop(S)
   THEN [names |-> (IF inv # "" THEN <<"C02.inv." \o inv, "C16.structure">> ELSE <<>>)
                   \o CoopClauses(st, rm, d, gs, S, post, o0, S.obs),
         dead |-> inv # ""]
   ELSE IF inv # ""
-  THEN [names |-> <<"C02.inv." \o inv>> \o ObsClauses(st, rm, d, S, post, o0, S.obs), dead |-> TRUE]
-  ELSE [names |-> ObsClauses(st, rm, d, S, post, o0, S.obs)
+  THEN [names |-> <<"C02.inv." \o inv>> \o ObsClauses(st, rm, d, S, post, o0, S.obs, iss), dead |-> TRUE]
+  ELSE [names |-> ObsClauses(st, rm, d, S, post, o0, S.obs, iss)
                   \o FileClauses(st, rm, d, S, post, o0, S.obs)
                   \o QueryClauses(post, NewRam(rm, S), NewDef(d, S), S),
         dead |-> FALSE]
@@ -281,7 +285,7 @@ PairClauses(S, j) ==
               <<Tr.pairname \o ".obs",    S.obs = T.obs>>,
               <<Tr.pairname \o ".store",  S.d = T.d /\ S.lastId = T.lastId /\ S.nT = T.nT /\ S.nL = T.nL
                                           /\ S.reset = T.reset>>,
-              <<Tr.pairname \o ".writes", S.w = T.w>>,
+              <<"bind.pair.writes", S.w = T.w>>,
               <<Tr.pairname \o ".answers", (Has(S.q, "ans") /\ Has(T.q, "ans")) => S.q.ans = T.q.ans>>
             >>)
 
@@ -308,6 +312,7 @@ Init ==
   /\ bad = <<>>
   /\ dead = FALSE
   /\ gens = <<>>
+  /\ issued = 0
 
 Tag(j, names) == [i \in 1..Len(names) |-> <<j, names[i]>>]
 
@@ -317,12 +322,15 @@ Next ==
   /\ LET S    == Steps[k + 1]
          post == PostStore(cur, S)
          o0   == IF k = 0 \/ S.reset THEN EmptyObs ELSE Steps[k].obs
-         f0   == StepClauses(cur, ram, def, gens, S, post, o0)
+         f0   == StepClauses(cur, ram, def, gens, S, post, o0, issued)
          f    == [f0 EXCEPT !.names = @ \o PairClauses(S, k + 1)
                                         \o (IF k = 0 THEN <<>> ELSE LifeClauses(S, Steps[k], post, cur))]
      IN /\ bad' = bad \o Tag(k + 1, f.names)
         /\ dead' = f.dead
         /\ cur' = post
+        /\ issued' = LET base == IF S.reset THEN 0 ELSE issued
+                          ids == { S.created[j].id : j \in 1..Len(S.created) }
+                      IN IF ids = {} THEN base ELSE Max(base, CHOOSE x \in ids : \A y \in ids : y <= x)
         /\ gens' = NewGens(cur, ram, def, gens, S)
         /\ ram' = IF IsCoop(S) THEN CoopRam(ram, gens, S) ELSE NewRam(ram, S)
         /\ def' = NewDef(def, S)
